@@ -13,6 +13,16 @@ collection itself count (attribute access, iteration / len / in / count / is_emp
 fully loaded before); an aggregate recomputed by the database before a full load is a different read.
 Control group: volatile attributes and volatile collections may change silently and must NOT raise: an
 UnrepeatableReadError needs another session's committed change outside the volatile columns/tables.
+
+Two generated reader families on top of the hand-written readers:
+ * loaded-first: the collection is made fully loaded (len / load() / prefetch / bool) BEFORE its content is first
+   observed (iteration, copy(), len, count, is_empty, bool, in, ==), the items' to-one attribute is never read
+   directly, then the item rows are fetched again by a query text not used before (five of them) and the same
+   observation is repeated. A derived question (len, in ...) put twice to a collection that was fully loaded
+   before the first one must get the same answer, also when the content was never iterated.
+ * write-between: the reader observes attribute A, modifies another attribute B of the same object and calls
+   commit() / flush() inside the db_session that stays open (identity map and read marks survive), a writer
+   commits a new A, the reader fetches the row again (eight routes) and observes A again.
 """
 import itertools
 from vf import core
@@ -113,9 +123,75 @@ WRITERS = [
     P('move_V1', ('link', 'V', 1, 'g', 2)),
     P('move_V2_in', ('link', 'V', 2, 'g', 1)),
 ]
+# ---- family 'loaded-first': the collection is made fully loaded BEFORE its content is first observed, the item's
+# to-one attribute is never read directly, a writer moves / unlinks / deletes an item (or adds one), the reader
+# fetches the item rows again with a query text it has not used before and observes the collection again.
+# Every way of loading x every way of observing x every re-fetch (thorough); the quick tier takes every
+# loader x observer combination once, rotating through the re-fetches.
+LOADERS = dict(len=('len', 'G', 1, 'items'), cload=('cload', 'G', 1, 'items'), prefetch=('prefetch', 'G', 'items'),
+               bool=('bool', 'G', 1, 'items'))
+OBSERVERS = dict(items=[('items', 'G', 1, 'items')], copy=[('copy', 'G', 1, 'items')], len=[('len', 'G', 1, 'items')],
+                 count=[('count', 'G', 1, 'items')], empty=[('empty', 'G', 1, 'items')], bool=[('bool', 'G', 1, 'items')],
+                 isin=[('in', 'G', 1, 'items', 1), ('in', 'G', 1, 'items', 2)], eq=[('eq', 'G', 1, 'items', (1, 2))])
+REFETCH = dict(q_all=('q_all', 'I'), q_one=('q_one', 'I', 1), q_gt=('q_gt', 'I'), get_fu=('get_fu', 'I', 1), q_val=('q_val', 'I', 0))
+LOADED_FIRST, LOADED_FIRST_QUICK = [], []
+for li, (ln, lop) in enumerate(sorted(LOADERS.items())):
+    for oi, (on, oops) in enumerate(sorted(OBSERVERS.items())):
+        for ri, (rn, rop) in enumerate(sorted(REFETCH.items())):
+            if ln == on: continue
+            p_ = P('%s+%s|%s' % (ln, on, rn), lop, *(oops + [rop] + oops))
+            LOADED_FIRST.append(p_)
+            if (ri - li - oi) % len(REFETCH) in (0, 2): LOADED_FIRST_QUICK.append(p_['name'])
+LOADED_FIRST += [
+    P('len+tags|other_side', ('len', 'G', 1, 'tags'), ('items', 'G', 1, 'tags'), ('items', 'T', 2, 'groups'), ('items', 'T', 1, 'groups'), ('items', 'G', 1, 'tags')),
+    P('cload+tags|prefetch', ('cload', 'G', 1, 'tags'), ('items', 'G', 1, 'tags'), ('prefetch', 'G', 'tags'), ('items', 'G', 1, 'tags')),
+    P('prefetch+vitems|q_all', ('prefetch', 'G', 'vitems'), ('items', 'G', 1, 'vitems'), ('q_all', 'V'), ('items', 'G', 1, 'vitems')),   # control
+]
+LOADED_FIRST_QUICK += ['len+tags|other_side', 'cload+tags|prefetch', 'prefetch+vitems|q_all']
+LOADED_FIRST_WRITERS = dict(items=['move_I1', 'unlink_I1', 'del_I1', 'move_I3_in', 'new_I4'], tags=['tag_add', 'tag_remove'], vitems=['move_V1', 'move_V2_in'])
+LOADED_FIRST_WRITERS_QUICK = dict(items=['move_I1', 'unlink_I1', 'move_I3_in'], tags=['tag_add', 'tag_remove'], vitems=['move_V1'])
+
+# ---- family 'write-between': the reader observes attribute A, modifies ANOTHER attribute B of the same object and
+# calls commit() / flush() inside the db_session that stays open, a writer commits a new A, the reader fetches the
+# row again with a fresh query and observes A again (also: a collection observed through its items' to-one side)
+SETB = dict(lz=('set', 'I', 1, 'lz', 'w'), vol=('set', 'I', 1, 'vol', 5), g=('link', 'I', 1, 'g', 2), val=('set', 'I', 1, 'val', 5),
+            detail=('link1', 2, 1))
+REFETCH2 = dict(REFETCH, other_side=('items', 'G', 1, 'items'), prefetch=('prefetch', 'G', 'items'), load=('load', 'I', 1))
+WRITE_BETWEEN, WRITE_BETWEEN_QUICK = [], []
+for ai, (an, bs) in enumerate((('val', ('lz', 'vol', 'g', 'detail')), ('g', ('val', 'lz', 'vol')), ('vol', ('val', 'lz')))):
+    for bi, bn in enumerate(bs):
+        for si, sync in enumerate(('commit', 'flush')):
+            for ri, (rn, rop) in enumerate(sorted(REFETCH2.items())):
+                if an == 'g' and rn == 'other_side': rop = ('items', 'G', 2, 'items')
+                p_ = P('%s|set_%s+%s+%s' % (an, bn, sync, rn), ('attr', 'I', 1, an), SETB[bn], (sync,), rop, ('attr', 'I', 1, an))
+                WRITE_BETWEEN.append(p_)
+                if (sync == 'commit' and an != 'vol' and (bn in ('lz', 'val') or ri % 3 == bi % 3)) or (sync == 'flush' and ri == bi) \
+                   or (an == 'vol' and ri == bi): WRITE_BETWEEN_QUICK.append(p_['name'])
+for sync in ('commit', 'flush'):
+    for rn in ('q_all', 'q_gt', 'q_one'):
+        WRITE_BETWEEN.append(P('items|set_val+%s+%s' % (sync, rn), ('items', 'G', 1, 'items'), ('set', 'I', 1, 'val', 5), (sync,), REFETCH[rn], ('items', 'G', 1, 'items')))
+        WRITE_BETWEEN.append(P('len+items|set_lz+%s+%s' % (sync, rn), ('len', 'G', 1, 'items'), ('items', 'G', 1, 'items'), ('set', 'I', 1, 'lz', 'w'), (sync,), REFETCH[rn], ('items', 'G', 1, 'items')))
+WRITE_BETWEEN_QUICK += ['items|set_val+commit+q_all', 'items|set_val+commit+q_one', 'len+items|set_lz+commit+q_gt', 'items|set_val+flush+q_all']
+WRITE_BETWEEN += [
+    P('name|set_tags+commit+q_all', ('attr', 'G', 1, 'name'), ('m2m', 'add', 1, 2), ('commit',), ('q_all', 'G'), ('attr', 'G', 1, 'name')),
+    P('item|set_item2+commit+q_all', ('attr', 'D', 1, 'item'), ('link1', 2, 2), ('commit',), ('q_all', 'D'), ('attr', 'D', 1, 'item')),
+]
+WRITE_BETWEEN_QUICK += ['name|set_tags+commit+q_all', 'item|set_item2+commit+q_all']
+def wb_writers(name, quick):
+    a = name.split('|')[0]
+    if a == 'val': return ['upd_val'] if quick else ['upd_val', 'del_I1', 'upd_vol']
+    if a == 'g': return ['move_I1', 'unlink_I1'] if quick else ['move_I1', 'unlink_I1', 'del_I1']
+    if a == 'vol': return ['upd_vol']
+    if a == 'name': return ['upd_name']
+    if a == 'item': return ['swap_detail']
+    return ['move_I1', 'unlink_I1'] if quick else ['move_I1', 'unlink_I1', 'del_I1', 'new_I4']
+
+BASE_READERS = list(READERS)
+READERS = BASE_READERS + LOADED_FIRST + WRITE_BETWEEN
 PROGRAMS = READERS + WRITERS
 BY_NAME = {p['name']: p for p in PROGRAMS}
 assert len(BY_NAME) == len(PROGRAMS)
+assert set(LOADED_FIRST_QUICK + WRITE_BETWEEN_QUICK) <= set(BY_NAME)
 CONTROL_READERS = ('vol|load', 'vol|q_all', 'vitems|cload', 'vitems|q_all')
 VOLATILE_WRITERS = ('upd_vol', 'move_V1', 'move_V2_in')
 TRIPLE_READERS = ['val|load', 'g|q_one', 'items|cload', 'items|q_all', 'tags|other_side', 'vol|load']
@@ -124,6 +200,9 @@ XCHECK = [('val|load', 'upd_val'), ('items|cload', 'new_I4'), ('tags|other_side'
 
 def pk(obj):
     return None if obj is None else obj.id
+
+def attr_entity(attr):
+    return 'I' if attr == 'items' else 'V' if attr == 'vitems' else 'T' if attr == 'tags' else 'G'
 
 def interpret(t, prog, orm, E, note):
     objs = {}
@@ -149,13 +228,21 @@ def interpret(t, prog, orm, E, note):
             for obj in res: objs[(ename, obj.id)] = obj
         elif k == 'q_all':
             for obj in E[op[1]].select()[:]: objs[(op[1], obj.id)] = obj
+        elif k == 'q_gt':
+            for obj in orm.select('x for x in Ent if x.id > 0', {'Ent': E[op[1]]})[:]: objs[(op[1], obj.id)] = obj
+        elif k == 'q_val':
+            val = op[2]
+            for obj in orm.select('x for x in Ent if x.val >= val', {'Ent': E[op[1]], 'val': val})[:]: objs[(op[1], obj.id)] = obj
+        elif k == 'commit': orm.commit(); note('committed')
+        elif k == 'flush': orm.flush()
         elif k == 'get_fu':
             obj = E[op[1]].get_for_update(id=op[2])
             if obj is not None: objs[(op[1], op[2])] = obj
         elif k == 'prefetch':
             ent = E[op[1]]
-            for obj in ent.select().prefetch(getattr(ent, op[2]))[:]: objs[(op[1], obj.id)] = obj
-        elif k in ('items', 'len', 'count', 'empty', 'in', 'cload'):
+            for obj in ent.select().prefetch(getattr(ent, op[2]))[:]:
+                objs[(op[1], obj.id)] = obj; note('loaded', '%s[%s].%s' % (op[1], obj.id, op[2]))
+        elif k in ('items', 'len', 'count', 'empty', 'in', 'cload', 'copy', 'bool', 'eq'):
             ename, o, attr = op[1], op[2], op[3]
             coll = getattr(get(ename, o), attr)
             key = '%s[%s].%s' % (ename, o, attr)
@@ -163,10 +250,12 @@ def interpret(t, prog, orm, E, note):
             elif k == 'len': note('obs', key, len(coll), 'len')
             elif k == 'count': note('obs', key, coll.count(), 'count')
             elif k == 'empty': note('obs', key, coll.is_empty(), 'empty')
-            elif k == 'cload': coll.load()
+            elif k == 'copy': note('obs', key, sorted(x.id for x in coll.copy()), 'full')
+            elif k == 'bool': note('obs', key, bool(coll), 'bool')
+            elif k == 'eq': note('obs', key, coll == set(get(attr_entity(attr), i) for i in op[4]), ('eq', tuple(op[4])))
+            elif k == 'cload': coll.load(); note('loaded', key)
             else:
-                rent = 'I' if attr == 'items' else 'V' if attr == 'vitems' else 'T' if attr == 'tags' else 'G'
-                item = E[rent].get(id=op[4])
+                item = E[attr_entity(attr)].get(id=op[4])
                 if item is not None: note('obs', key, item in coll, ('in', op[4]))
         # ---- writer operations ----
         elif k == 'set':
@@ -229,7 +318,9 @@ class View(object):
 def op_shape(op):
     """shape of an operation for signatures: kind + attribute/collection name, no object ids"""
     k = op[0]
-    if k in ('attr', 'items', 'len', 'count', 'empty', 'in', 'cload'): return '%s:%s' % (k, op[3])
+    if len(op) == 1: return k
+    if k in ('attr', 'items', 'len', 'count', 'empty', 'in', 'cload', 'copy', 'bool', 'eq'): return '%s:%s' % (k, op[3])
+    if k in ('set', 'link'): return '%s:%s.%s' % (k, op[1], op[3])
     if k == 'prefetch': return 'prefetch:%s' % op[2]
     if k == 'load': return 'load' + (':' + op[3] if len(op) > 3 else '')
     return '%s:%s' % (k, op[1])
@@ -243,6 +334,9 @@ def route(v, t, step_a, idx_a, idx_b):
 def failing_op(v, t):
     seq = [d[1] for _, d in v.notes[t] if d[0] == 'op']
     return op_shape(v.progs[t]['ops'][seq[-1]]) if seq else 'start'
+
+NOEXP = object()
+ROW_QUERIES = ('q_all', 'q_one', 'q_gt', 'q_val', 'get_fu')
 
 def is_volatile_key(key):
     return key.endswith('.vol') or key.endswith('.vitems')
@@ -260,6 +354,8 @@ def judge(v, counters):
         elif r['status'] == 'engine': out.append(('engine-result|%s' % r['cls'], repr(r)))
         if r['status'] == 'exc' and r['cls'] == 'UnrepeatableReadError':
             bump('UnrepeatableReadError')
+            if any(d[0] == 'committed' for _, d in v.notes[t]): bump('UnrepeatableReadError_after_in_session_commit')
+            if any(d[0] == 'loaded' for _, d in v.notes[t]) or v.progs[t]['ops'][0][0] in ('len', 'bool'): bump('UnrepeatableReadError_collection_loaded_first')
             others = [j for j in v.change_steps if v.x.trace[j][0] != t]
             if not [j for j in others if not v.volatile_only_change(j)]:
                 out.append(('control-raised|at=%s|%s' % (failing_op(v, t), 'volatile-only change' if others else 'no concurrent commit'),
@@ -267,10 +363,15 @@ def judge(v, counters):
         if r['status'] == 'exc' and r['cls'] == 'OptimisticCheckError': bump('OptimisticCheckError')
         # the oracle proper: equal observations per key
         full, first, at = {}, {}, {}
+        loaded, derived = set(), {}       # collections known to be fully loaded in the cache; first derived observations of them
         for idx, (step, d) in enumerate(v.notes[t]):
+            if d[0] == 'loaded': loaded.add(d[1])
             if d[0] != 'obs': continue
             key, val, how = d[1], d[2], (d[3] if len(d) > 3 else 'attr')
+            if isinstance(how, list): how = (how[0], tuple(how[1]) if isinstance(how[1], list) else how[1])
             vol = is_volatile_key(key)
+            was_loaded = key in loaded
+            if how in ('full', 'len', 'bool'): loaded.add(key)
             if how == 'attr':
                 if key in first:
                     bump('volatile_reobserved' if vol else 'attributes_reobserved')
@@ -295,34 +396,55 @@ def judge(v, counters):
                                         'T%d (%s) observed %s = %r and later %r without an error' % (t, name, key, base[1], val)))
                 full[key] = ('items', val); at[key] = idx
                 continue
-            if base is None: continue            # computed by the database before any full load: a different read
-            n = len(base[1]) if base[0] == 'items' else base[1]
-            if how == 'len' or how == 'count': expect = n
-            elif how == 'empty': expect = (n == 0)
-            elif base[0] == 'items': expect = how[1] in base[1]
-            else: continue
+            # derived questions (len / count / is_empty / bool / in / ==): predicted from the full observation, otherwise
+            # compared with the answer to the same question put before to the collection when it was already fully loaded
+            expect, ref = NOEXP, None
+            if base is not None:
+                n = len(base[1]) if base[0] == 'items' else base[1]
+                if how == 'len' or how == 'count': expect = n
+                elif how == 'empty': expect = (n == 0)
+                elif how == 'bool': expect = (n != 0)
+                elif base[0] == 'items' and how[0] == 'in': expect = how[1] in base[1]
+                elif base[0] == 'items' and how[0] == 'eq': expect = sorted(how[1]) == sorted(base[1])
+                ref = at[key]
+            if expect is NOEXP and (key, how) in derived: expect, ref = derived[(key, how)]
+            if was_loaded: derived.setdefault((key, how), (val, idx))
+            if expect is NOEXP: continue         # computed by the database before any full load: a different read
             bump('volatile_reobserved' if vol else 'collections_reobserved')
             if val != expect:
                 if vol: bump('volatile_changed_silently')
-                else: out.append(('collection-changed-silently|%s|via=%s|%s' % (key.split('.')[-1], route(v, t, step, at[key], idx), how if isinstance(how, str) else 'in'),
-                                  'T%d (%s) observed %s fully as %r; later %r gave %r' % (t, name, key, base[1], how, val)))
+                else:
+                    via = route(v, t, step, ref, idx)
+                    if not (base is not None and base[0] == 'items'):
+                        # the content was never iterated: which fresh query returned the item rows does not matter
+                        via = 'never-iterated,' + ','.join(sorted(set('rowquery:' + x.split(':')[1] if x.split(':')[0] in ROW_QUERIES else x for x in via.split(','))))
+                    out.append(('collection-changed-silently|%s|via=%s|%s' % (key.split('.')[-1], via, how if isinstance(how, str) else how[0]),
+                                'T%d (%s): fully loaded %s answered %r before (%r); later %r gave %r'
+                                % (t, name, key, expect, base[1] if base else 'same question', how, val)))
     # committed rows change only in commits of sessions that end successfully (writers are plain sessions)
     for j in v.change_steps:
         tt, lab = v.x.trace[j]
-        if lab[0] != 'commit' or not v.ok[tt]:
+        later_commit_returned = any(d[0] == 'committed' and step >= j for step, d in v.notes[tt])    # an explicit commit() inside the session
+        if lab[0] != 'commit' or not (v.ok[tt] or later_commit_returned):
             out.append(('rows-changed-by-failed-or-uncommitted-session|%s' % v.progs[tt]['name'], 'step %d %r' % (j, lab)))
     if len(v.change_steps): bump('executions_with_a_committed_change')
     return out
 
 def work_items(ctx):
-    rn = [p['name'] for p in READERS]; wn = [p['name'] for p in WRITERS]
+    rn = [p['name'] for p in BASE_READERS]; wn = [p['name'] for p in WRITERS]
     pairs = [(a, b) for a in rn for b in wn]
     items = []
+    def coll_of(name): return 'tags' if 'tags' in name else 'vitems' if 'vitems' in name else 'items'
     if ctx.quick:
         items += [('pair', pr, 2, 'visible') for pr in pairs]
+        # the writer fits between two observations with ONE preemption
+        items += [('loaded-first', (a, b), 1, 'visible') for a in LOADED_FIRST_QUICK for b in LOADED_FIRST_WRITERS_QUICK[coll_of(a)]]
+        items += [('write-between', (a, b), 1, 'visible') for a in WRITE_BETWEEN_QUICK for b in wb_writers(a, True)]
         items += [('xcheck', pr, 1, 'all') for pr in XCHECK[:2]]
     else:
         items += [('pair', pr, None, 'visible') for pr in pairs]
+        items += [('loaded-first', (p_['name'], b), None, 'visible') for p_ in LOADED_FIRST for b in LOADED_FIRST_WRITERS[coll_of(p_['name'])]]
+        items += [('write-between', (p_['name'], b), None, 'visible') for p_ in WRITE_BETWEEN for b in wb_writers(p_['name'], False)]
         items += [('triple', (a,) + ws, 2, 'visible') for a in TRIPLE_READERS for ws in itertools.combinations(TRIPLE_WRITERS, 2)]
         items += [('xcheck', pr, 2, 'all') for pr in XCHECK]
     return items
@@ -348,11 +470,20 @@ def run(ctx):
         ('volatile control group changed silently (no error)', c.get('volatile_changed_silently', 0), 10),
         ('executions with a committed concurrent change', c.get('executions_with_a_committed_change', 0), 1000),
         ('program pairs with more than one distinct outcome', agg['per_kind']['pair']['tuples_with_more_than_one_outcome'], 50),
+        ('loaded-first reader x writer pairs with more than one distinct outcome', agg['per_kind']['loaded-first']['tuples_with_more_than_one_outcome'], 60),
+        ('write-between reader x writer pairs with more than one distinct outcome', agg['per_kind']['write-between']['tuples_with_more_than_one_outcome'], 40),
+        ('UnrepeatableReadError after an in-session commit of the reader', c.get('UnrepeatableReadError_after_in_session_commit', 0), 50),
+        ('UnrepeatableReadError of a reader that fully loaded the collection before observing it', c.get('UnrepeatableReadError_collection_loaded_first', 0), 50),
         ('all-points cross-check tuples', c.get('xcheck_tuples_all_points_outcomes_contained', 0), 2),])
     out = L.coverage(ctx, agg)
-    ctx.cov.update(readers=len(READERS), writers=len(WRITERS),
-                   bounds='reader x writer: preemption bound 2' if ctx.quick else
-                          'reader x writer: all interleavings; reader + 2 writers (%d x C(%d,2)): preemption bound 2' % (len(TRIPLE_READERS), len(TRIPLE_WRITERS)))
+    ctx.cov.update(readers=len(READERS), writers=len(WRITERS), base_readers=len(BASE_READERS),
+                   loaded_first_readers=len(LOADED_FIRST_QUICK if ctx.quick else LOADED_FIRST),
+                   write_between_readers=len(WRITE_BETWEEN_QUICK if ctx.quick else WRITE_BETWEEN),
+                   bounds=('reader x writer: preemption bound 2; loaded-first (%d of %d readers) and write-between (%d of %d readers) '
+                           'x their relevant writers: preemption bound 1' % (len(LOADED_FIRST_QUICK), len(LOADED_FIRST), len(WRITE_BETWEEN_QUICK), len(WRITE_BETWEEN)))
+                          if ctx.quick else
+                          'reader x writer: all interleavings (loaded-first / write-between families: x their relevant writers); '
+                          'reader + 2 writers (%d x C(%d,2)): preemption bound 2' % (len(TRIPLE_READERS), len(TRIPLE_WRITERS)))
     ctx.cov['exhaustive'] = True
     ctx.assume('SQLite only (PostgreSQL/MySQL server behaviour is out of reach); the reader observes through the public API only')
     return out
